@@ -10,6 +10,7 @@ import (
 
 	"github.com/gotd/td/bin"
 	"github.com/gotd/td/crypto"
+	"github.com/gotd/td/mtproto"
 	"github.com/gotd/td/proto"
 
 	"verif/harness/c04shared"
@@ -92,6 +93,14 @@ func run(c *hc.Ctx) error {
 			return err
 		}
 	}
+	// ---- 3b. the compression-threshold path: mtproto.Conn.newEncryptedMessage picks Message / GZIP / raw
+	for i := c.N(1200, 40000); i > 0; i-- {
+		thresholdCase(c, &q, &rt)
+		rt.MaybeVerify(c, 512)
+		if err := q.MaybeFlush(c); err != nil {
+			return err
+		}
+	}
 	rt.Verify(c)
 	// ---- 4. the same from 2..4 goroutines at once (every worker owns its ciphers and random reader;
 	// Cipher is a value type without shared state): round trip checked immediately, every ciphertext
@@ -132,8 +141,8 @@ func run(c *hc.Ctx) error {
 	if err := q.Flush(c); err != nil {
 		return err
 	}
-	c.Res.Rule = "countPadding: every residue l mod 16 (l = 0..63 and four large lengths) × all 256 random bytes (exhaustive for the function's case split). Round trips: every payload length 0..4096 step 4 (once in quick, ten times in thorough) + random up to 16 KiB (64 KiB thorough) + 64 KiB, 256 KiB (quick) / 1 MiB (thorough), both directions, random keys (5% all-zero/all-FF/low entropy), header fields random and at their extremes (0, ±1, min/max, sign bits), four encoder paths (Message encoder and proto.GZIP through EncodeWithoutCopy — model entry encm; raw MessageDataWithPadding and raw with a shorter declared length through Encode — model entry enc). Hand-made frames with padding 0..11, 12, 1024, 1028.. and length fields ≡ 1,2,3 mod 4 or negative. Every ciphertext buffer and every accepted *EncryptedMessageData is retained as returned and re-read after later calls; the round trip also runs from 2..4 goroutines at once. Non-trivial = all; distinct = distinct input line"
-	c.PartialNote("gzip compression itself is not modelled: on the proto.GZIP path the model encrypts the bytes the Go encoder produced; the monitor checks that the decrypted object gunzips to the original data")
+	c.Res.Rule = "countPadding: every residue l mod 16 (l = 0..63 and four large lengths) × all 256 random bytes (exhaustive for the function's case split). Round trips: every payload length 0..4096 step 4 (once in quick, ten times in thorough) + random up to 16 KiB (64 KiB thorough) + 64 KiB, 256 KiB (quick) / 1 MiB (thorough), both directions, random keys (5% all-zero/all-FF/low entropy), header fields random and at their extremes (0, ±1, min/max, sign bits), four encoder paths (Message encoder and proto.GZIP through EncodeWithoutCopy — model entry encm; raw MessageDataWithPadding and raw with a shorter declared length through Encode — model entry enc). Conn.newEncryptedMessage with threshold options −5, −1, 0 (=1024), 1, 4, 8, 64, 1023..1025, random and encoded payload lengths on and around the threshold (compressible and random payloads). Hand-made frames with padding 0..11, 12, 1024, 1028.. and length fields ≡ 1,2,3 mod 4 or negative. Every ciphertext buffer and every accepted *EncryptedMessageData is retained as returned and re-read after later calls; the round trip also runs from 2..4 goroutines at once. Non-trivial = all; distinct = distinct input line"
+	c.PartialNote("gzip compression is a parameter of the model (law gunz(gz d) = d): the executable model is given the bytes the Go compressor produced; the monitor checks that the decrypted object gunzips to the original data; the 10 MB decompression limit of proto.GZIP.Decode is not modelled")
 	return nil
 }
 
@@ -245,4 +254,84 @@ func roundTrip(c *hc.Ctx, q *c04shared.Queue, rt *c04shared.Retainer, side crypt
 	if back, err := enc.DecryptFromBuffer(ak, &bin.Buffer{Buf: append([]byte{}, ct...)}); (err == nil || back != nil) && !c04shared.Degenerate(key) {
 		c.Fail("reflection-accepted", line, "the sending side decrypted its own message")
 	}
+}
+
+// thresholdCase drives Conn.newEncryptedMessage with a threshold option and an encoded payload length
+// on and around the threshold; the model gets the bytes gzip produced (compression is a parameter of
+// the model) and must output the same ciphertext and take the same branch.
+func thresholdCase(c *hc.Ctx, q *c04shared.Queue, rt *c04shared.Retainer) {
+	r := c.Rng
+	opt := hc.Pick(r, -1, -5, 0, 0, 1, 4, 8, 64, 1023, 1024, 1025, 4*r.Range(1, 600))
+	eff := opt
+	if eff == 0 {
+		eff = 1024
+	}
+	n := 4 * r.Range(0, 64)
+	if eff > 0 {
+		n = max(0, 4*((eff+hc.Pick(r, -8, -4, -1, 0, 1, 3, 4, 8, 12, r.Range(-40, 400)))/4))
+		if r.Chance(10) {
+			n = 0
+		}
+	}
+	var payload []byte
+	if r.Bool() { // compressible
+		payload = bytes.Repeat(r.Bytes(4), n/4)
+	} else {
+		payload = r.Bytes(n)
+	}
+	key := c04shared.GenKey(r)
+	ak := key.WithID()
+	side := hc.Pick(r, crypto.Client, crypto.Server)
+	rnd := r.Bytes(1 + 16*17)
+	var enc, dec crypto.Cipher
+	if side == crypto.Client {
+		enc, dec = crypto.NewClientCipher(bytes.NewReader(rnd)), crypto.NewServerCipher(nil)
+	} else {
+		enc, dec = crypto.NewServerCipher(bytes.NewReader(rnd)), crypto.NewClientCipher(nil)
+	}
+	salt, sid, mid, seq := int64(r.U64()), int64(r.U64()), int64(r.U64()), int32(r.U64())
+	want := "raw"
+	switch {
+	case eff <= 0:
+		want = "message"
+	case len(payload) > eff:
+		want = "gzip"
+	}
+	gz := []byte(nil)
+	if want == "gzip" {
+		var gb bin.Buffer
+		if err := (proto.GZIP{Data: payload}).Encode(&gb); err == nil && gb.ConsumeID(proto.GZIPTypeID) == nil {
+			gz, _ = gb.Bytes()
+		}
+	}
+	line := fmt.Sprintf("newmsg %s %s %s %d %d %d %d %d %s %s %s", c04shared.SideName(side), hc.Hex(key[:]), hc.Hex(ak.ID[:]), opt,
+		uint64(salt), uint64(sid), uint64(mid), uint32(seq), hc.Hex(payload), hc.Hex(gz), hc.Hex(rnd))
+	c.Count("threshold.path=" + want)
+	c.Eval(c04shared.Sig(line), true)
+	b := &bin.Buffer{}
+	err := mtproto.VerifC04NewEncryptedMessage(mtproto.Options{CompressThreshold: opt, Cipher: enc, Random: r}, ak, sid, salt, mid, seq, rawEnc(payload), b)
+	if err != nil {
+		c.Fail("newEncryptedMessage-error", line, err.Error())
+		return
+	}
+	q.Add(line, "ok "+want+" "+hc.Hex(b.Buf))
+	rt.Keep("Conn.newEncryptedMessage", line, func() []byte { return b.Buf })
+	got, err := dec.DecryptFromBuffer(ak, &bin.Buffer{Buf: append([]byte{}, b.Buf...)})
+	if err != nil {
+		c.Fail("roundtrip-rejected", line, "threshold path "+want+": "+err.Error())
+		return
+	}
+	if got.Salt != salt || got.SessionID != sid || got.MessageID != mid || got.SeqNo != seq {
+		c.Fail("roundtrip-differs", line, "threshold path "+want+": header fields differ")
+	}
+	data := got.Data()
+	if want == "gzip" {
+		var g proto.GZIP
+		if err := g.Decode(&bin.Buffer{Buf: append([]byte{}, data...)}); err != nil || !bytes.Equal(g.Data, payload) {
+			c.Fail("gzip-roundtrip-differs", line, fmt.Sprintf("payload of %d bytes over threshold %d: err=%v", len(payload), eff, err))
+		}
+	} else if !bytes.Equal(data, payload) {
+		c.Fail("roundtrip-differs", line, fmt.Sprintf("threshold path %s: %d bytes sent, %d bytes received", want, len(payload), len(data)))
+	}
+	c04shared.KeepDecrypted(rt, line, got)
 }
